@@ -380,7 +380,11 @@ func faultWorker(tier string, shard, nshard int) *WorkerOut {
 						fc := FaultCase{Decoder: dec, Faults: fs}
 						out.Transitions++
 						out.Units++
+						wex, _ := json.Marshal(fc)
+						wdBegin(Finding{Prop: "C07", Unit: Unit{Opts: DefaultOptions(), History: h, Tag: "fault"}, Step: len(h) - 2, Extra: wex,
+							Key: unitKey(Unit{Opts: DefaultOptions(), History: h}, len(h)-1) + " :: " + fmt.Sprint(fs) + " on " + dec}, out)
 						viol := runFaultCaseBars(h, bars, fc, out.Counters)
+						wdEnd()
 						for _, m := range viol {
 							var names []string
 							for _, f := range fs {
